@@ -116,12 +116,48 @@ pub fn check(ctx: &Ctx) -> i32 {
             }
         }
     });
+    // tick-level jitter: every audio step sequence of 2..=JMAX steps over {1, 2, 3, 5} x 600 ticks
+    // (table builders that summarise the deltas move interior samples)
+    let jmax = if ctx.thorough { 7 } else { 5 };
+    let jsteps = [1u64, 2, 3, 5];
+    let mut seqs: Vec<Vec<usize>> = vec![vec![]];
+    let mut frontier: Vec<Vec<usize>> = vec![vec![]];
+    for _ in 0..jmax {
+        frontier = frontier.iter().flat_map(|s| (0..jsteps.len()).map(move |a| { let mut q = s.clone(); q.push(a); q })).collect();
+        seqs.extend(frontier.iter().cloned());
+    }
+    let seqs: Vec<Vec<usize>> = seqs.into_iter().filter(|s| s.len() >= 2).collect();
+    let n_jitter = seqs.len();
+    let chunks: Vec<&[Vec<usize>]> = seqs.chunks(64).collect();
+    let tj = par_items(&chunks, ctx.seed, |idx, ch, t| {
+        for (k, seq) in ch.iter().enumerate() {
+            for ac in [ACodec::AacLc, ACodec::Opus] {
+                let cfg = Cfg::basic(VCodec::H264, Some(ac), (idx + k) % 2 == 0);
+                let start = 180_000u64;
+                let at = |ticks: u64| ticks as f64 / 90000.0;
+                let mut ops = vec![];
+                for i in 0..2u32 {
+                    ops.push(Op::WV { pts: T(at(start + 3000 * i as u64)), data: Bytes::new(video_frame(VCodec::H264, i == 0, i == 0, i + 1, 5).0), key: i == 0 });
+                }
+                let mut tk = start;
+                for j in 0..=seq.len() {
+                    if j > 0 {
+                        tk += jsteps[seq[j - 1]] * 600;
+                    }
+                    ops.push(Op::WA { pts: T(at(tk)), data: Bytes::new(audio_frame(ac, j as u32, 6).0) });
+                }
+                judge(&cfg, &ops, (50_000 + idx as u64, k as u64), t);
+            }
+        }
+    });
+    let mut tally = tally;
+    tally.merge(tj);
     finish(
         ctx,
         &tally,
         Meta {
             level: "model_checking",
-            rule: "every A/V history over: first video decode time {0, 1/30, 1, 10 s} x first video composition offset {0, +2 frames} x audio start minus first video presentation {0, 1 tick, 1024/48000, 0.25, 3 s} x 2-3 video frames x 2-3 audio frames x audio step pattern {1024/48000, 1024/44100, 0.02, 0, (0, 1024/48000), (0.02, 0)}, plus runs of 8 and 12 audio frames at the 48 kHz and 44.1 kHz AAC spacings, x {AAC, Opus} x both layouts x codecs; executed on the real muxer; per-track presentation timelines rebuilt from stts/ctts (+ edit list if present, empty edits and media_time honoured) and every audio sample's presentation time relative to the first video frame compared with the submitted difference (tolerance 1 tick). Distinct by output bytes.".into(),
+            rule: format!("every A/V history over: first video decode time {{0, 1/30, 1, 10 s}} x first video composition offset {{0, +2 frames}} x audio start minus first video presentation {{0, 1 tick, 1024/48000, 0.25, 3 s}} x 2-3 video frames x 2-3 audio frames x audio step pattern {{1024/48000, 1024/44100, 0.02, 0, (0, 1024/48000), (0.02, 0)}}, plus runs of 8 and 12 audio frames at the 48 kHz and 44.1 kHz AAC spacings, plus every audio step sequence of 2..{jmax} steps over {{600, 1200, 1800, 3000}} ticks ({n_jitter} sequences x AAC/Opus), x {{AAC, Opus}} x both layouts x codecs; executed on the real muxer; per-track presentation timelines rebuilt from stts/ctts (+ edit list if present, empty edits and media_time honoured) and every audio sample's presentation time relative to the first video frame compared with the submitted difference (tolerance 1 tick). Distinct by output bytes."),
             bound: "2-3 video frames, 2-3 audio frames (8 and 12 for the two constant spacings)".into(),
             exhaustive: true,
             assumptions: vec!["the known finding C09/no-start-offset is matched only when neither track has an edit list and every audio sample is off by exactly the lost start offset; any other deviation is reported as a violation".into()],
